@@ -97,6 +97,11 @@ var $runDeferred = (deferred, jsErr, fromPanic) => {
         // Deferred function threw a JavaScript exception or tries to unwind stack
         // to the point where a panic was handled.
         if (fromPanic) {
+            if (e === null) {
+                // A newer panic raised by the deferred call was recovered further up:
+                // that recovery ends this (replaced) panic as well.
+                $panicStackDepth = null;
+            }
             // Re-throw the exception to reach deferral execution call at the end
             // of the function.
             throw e;
